@@ -21,8 +21,12 @@ DELAY = st.one_of(st.sampled_from([0, 1, 100, 65535]), st.integers(0, 65535))
 U16 = st.one_of(st.sampled_from([1, 65535, 0, 12000]), st.integers(0, 65535))
 
 COMMAND_TEXTS = ["EM,1,1", "SM,10,0,0", "SP,1,100", "TP", "CS", "SC,4,12000", "PO,B,3,1", "SL,5,2",
-                 "ST,abc", "HM,1000", "XM,100,5,-5", "R", "CU,1,0", " EM,0,0 ", "SR,1000\r", "T3,1,0,0,0,0,0,0"]
-QUERY_TEXTS = ["QL,3", "QS", "QE", "QC", "QG", "QT", "PI,B,2", "QB", "QP", "QM", " QS ", "QL,0\r", "V"]
+                 "ST,abc", "HM,1000", "XM,100,5,-5", "R", "CU,1,0", " EM,0,0 ", "SR,1000\r", "T3,1,0,0,0,0,0,0",
+                 # the rest of the documented command set, so that no name is special to the harness
+                 "ES", "ES,1", " es ", "EM,0,0", "PD,B,3,0", "PO,B,3,1", "SE,1,512", "SN,5", "QN", "TR", "NI", "ND",
+                 "CK,1,-1,2,-2,3,A,B", "AC,0,1", "C", "MW,1,2", "BL"]
+QUERY_TEXTS = ["QL,3", "QS", "QE", "QC", "QG", "QT", "PI,B,2", "QB", "QP", "QM", " QS ", "QL,0\r", "V",
+               "ES", "ES,1", "QR", "QU,1", "A", "I", "MR", "QN"]
 
 NICK = st.one_of(st.text(alphabet="abcdefghijklmnopqrstuvwxyzABCDEFGHIJKLMNOPQRSTUVWXYZ0123456789 _-.", max_size=16),
                  st.text(alphabet="abAB01 %{}$()[]*+#@!", max_size=16),
